@@ -42,16 +42,22 @@ def smallBytes' : List Value → Option Bytes
   | .uint n :: rest => if n ≤ 255 then (smallBytes' rest).map (fun r => UInt8.ofNat n :: r) else none
   | _ => none
 
-/-- entries of a `map[string]interface{}`: `none` = a key is not a (valid) text string or a value is not acceptable -/
-def stmtEntries : List Value → Option (List (Bytes × Value))
+/-- entries of a `map[string]interface{}`: `none` = a key is not a (valid) text string or a value is not acceptable.
+    fxamacker/cbor v2.7.0 decodes a `null` / `undefined` KEY as "leave the key variable as it is": the entry is stored under the
+    previous entry's key (the empty string for the first entry), overwriting it (measured; DESIGN.md Appendix D). -/
+def stmtEntriesFrom (prev : Bytes) : List Value → Option (List (Bytes × Value))
   | k :: v :: rest =>
-    match k with
-    | .text cs =>
-      if cs.all utf8Valid && acceptableS v then
-        (stmtEntries rest).map (fun r => r ++ [(cs.flatten, v)])
-      else none
-    | _ => none
+    let key : Option Bytes :=
+      match k with
+      | .text cs => if cs.all utf8Valid then some cs.flatten else none
+      | .simple n => if n = 22 ∨ n = 23 then some prev else none
+      | _ => none
+    match key with
+    | some kb => if acceptableS v then (stmtEntriesFrom kb rest).map (fun r => r ++ [(kb, v)]) else none
+    | none => none
   | _ => some []
+
+def stmtEntries (kvs : List Value) : Option (List (Bytes × Value)) := stmtEntriesFrom [] kvs
 
 def stmtModelled : List Value → Bool
   | k :: v :: rest => (match k with | .tag _ _ => false | _ => true) && tagFree v && stmtModelled rest
